@@ -26,6 +26,13 @@ Definition substr_ref (s : list Z) (off len : Z) : list Z :=
   let b := substr_stop n off len in
   if (0 <=? a) && (a <=? b) && (b <=? n) then byte_range s a b else [].
 
+(* where the code SHIPPED before /repo 6d6c881 departed from the rule: a start
+   inside the string and start + length above math.MaxInt (the sum wrapped) *)
+Definition substr_overflows (s : list Z) (off len : Z) : bool :=
+  let n := slen s in
+  let a := substr_start n off in
+  (0 <=? len) && (0 <=? a) && (a <? n) && (9223372036854775807 <? a + len).
+
 (* ---- Pad*: the padding is a prefix of token^k ---- *)
 Definition rep (tok : list Z) (k : nat) : list Z := concat (repeat tok k).
 Definition rep_prefix (p tok : list Z) : Prop := exists k rest, rep tok k = p ++ rest.
